@@ -2,7 +2,8 @@
 (* Role G: all sequences of simplification passes of length <= MaxLen. *)
 EXTENDS Naturals, Sequences, Json, TLC
 CONSTANT MaxLen
-Leaves == {"RRG", "RRGI", "MUO", "MDG", "MEG"}
+(* UPOST / UNEST: user-defined passes with implied post / nested pre+post passes (harness/vf/drivers/_passes.py) *)
+Leaves == {"RRG", "RRGI", "MUO", "MDG", "MEG", "UPOST", "UNEST"}
 VARIABLE p
 Init == p = <<>>
 Next == Len(p) < MaxLen /\ \E x \in Leaves : p' = Append(p, x)
